@@ -373,11 +373,17 @@ def _explore(driver, modname, pid, tier, seed, jobs, tmpbase, t0, only):
         "wall_s": round(wall, 2),
         "violations": len(violations),
     }
-    os.makedirs(EVIDENCE_DIR, exist_ok=True)
-    tmp = os.path.join(EVIDENCE_DIR, f".{pid}.json.tmp")
+    # the evidence file describes a complete run on the repository's own tree: a run restricted with --only, or one whose
+    # cogent3 comes from somewhere else (a scratch worktree with a seeded change), writes its record next to it instead
+    import cogent3 as _c3
+
+    partial = bool(only) or not os.path.realpath(_c3.__file__).startswith(os.path.realpath("/repo") + os.sep)
+    out_dir = os.path.join(EVIDENCE_DIR, "partial") if partial else EVIDENCE_DIR
+    os.makedirs(out_dir, exist_ok=True)
+    tmp = os.path.join(out_dir, f".{pid}.{os.getpid()}.json.tmp")
     with open(tmp, "w") as f:
         json.dump(ev, f, indent=1, sort_keys=False)
-    os.replace(tmp, os.path.join(EVIDENCE_DIR, f"{pid}.json"))
+    os.replace(tmp, os.path.join(out_dir, f"{pid}.json"))
     msg = (
         f"{pid} {tier}: shards={n} evaluations={total.evaluations} distinct_nontrivial={distinct} "
         f"outcomes={len(total.outcomes)}"
